@@ -33,6 +33,16 @@ def payloads(canary_path, canary_mod):
         out.append(q + '\x00' + call)
         out.append('\\N{DIGIT ONE}' + q + '+' + call + '+' + q)
         out.append('é' + q + '+' + call + '+' + q + 'é')
+        # a character that cannot be encoded (lone surrogate) makes the first candidate literal fail and sends the quoting code down its retry path
+        out.append('\udc80' + q + '+' + call2 + '+' + q)
+        out.append('\ud800' + q + '+' + call + '+' + q + '\udfff')
+        out.append(q + '+' + call + '+' + q + '\udc80')
+        # backslash directly before a quote: if the backslash is copied unescaped and the quote escaped, the pair reads as an escaped backslash + closing quote
+        out.append('\\' + q + '+' + call + '#')
+        out.append('\\' + q + '+' + call2 + '#')
+        out.append('\\' + q + '+' + call + '+b' + q)
+        out.append('\\\\' + q + '+' + call + '#')
+        out.append('\n\\' + q + '+' + call + '#')
     out.append('\\')
     out.append('\\\\')
     out.append("\\'\\\"")
@@ -67,6 +77,12 @@ def positions(p):
         ('fstr_nested1', 'x = f"{%s}"\n' % L),
         ('fstr_nested1b', "x = f'{%s}'\n" % L),
         ('fstr_nested_bytes', 'x = f"{%s}"\n' % B),
+        ('fstr_nested_bytes_b', "x = f'{%s}'\n" % B),
+        ('fstr_nested_bytes_c', "x = f'''{%s}'''\n" % B),
+        ('fstr_nested_bytes_d', 'v = 1\nx = f"""{v}{%s}{v!r}"""\n' % B),
+        ('fstr_nested_bytes_fmt', 'x = f"{%s!r:>{len(%s)}}"\n' % (B, B)),
+        ('fstr_text_then_nested', 'v = 1\nx = %s\n' % (F[:-1] + '{v}{' + L + '}' + F[-1])),
+        ('fstr_text3', 'v = 1\nx = %s\n' % ('f' + ascii('{v}' + pf + '{v}'))),
         ('fstr_key', 'd = {}\nx = f"{d[%s]}"\n' % L),
         ('fstr_key_bytes', 'd = {}\nx = f"{d[%s]!r:>{len(%s)}}"\n' % (B, L)),
         ('fstr_nested2', 'x = f"{f\'{%s}\'}"\n' % L),
